@@ -1,4 +1,249 @@
-import XgiModel.C13.Hodge
+/-
+  C13 — boundary operators form a chain complex.  Property theorems about the model XgiModel/C13/Hodge.lean
+  (the definitions the driver runs).  `rowSimp s k` / `colSimp s k` (XgiModel/C13/LemmasSC.lean) list, in row /
+  column order, the id and the sorted vertex list of the simplices labelling rows and columns of `boundary s k o`.
+-/
+import XgiModel.C13.LemmasFace
+
+open Finset
+
 namespace Xgi.C13
-theorem stub : True := trivial
+
+variable {s : SC}
+
+/-! ### shapes and keys -/
+
+/-- row keys of `B_{n+1}` are the ids of `rowSimp` (nodes for n = 0, simplices of order n otherwise) -/
+theorem row_keys (n : Nat) : downIds s (n + 1) = (rowSimp s (n + 1)).map (·.1) := downIds_eq n
+/-- column keys of `B_{n+1}` are the ids of the simplices of order n+1 -/
+theorem col_keys (n : Nat) : upIds s (n + 1) = (colSimp s (n + 1)).map (·.1) := upIds_succ n
+
+theorem boundary_rows (n : Nat) (o : PyId → Nat) : (boundary s (n + 1) o).r = (rowSimp s (n + 1)).length := by
+  rw [boundary_r, row_keys, List.length_map]
+theorem boundary_cols (n : Nat) (o : PyId → Nat) : (boundary s (n + 1) o).c = (colSimp s (n + 1)).length := by
+  rw [boundary_c, col_keys, List.length_map]
+
+/-- `B_0` has no rows (0 × #nodes): the boundary of a vertex is zero -/
+theorem boundary_zero_no_rows (h : WF s) (o : PyId → Nat) :
+    (boundary s 0 o).r = 0 ∧ (boundary s 0 o).c = s.nodes.length := by
+  rw [boundary_r, boundary_c, downIds_zero h]; simp [upIds]
+
+/-- consecutive boundary matrices can be multiplied: #columns of `B_n` = #rows of `B_{n+1}` -/
+theorem boundary_shapes_compose (n : Nat) (o : PyId → Nat) : (boundary s n o).c = (boundary s (n + 1) o).r := by
+  rw [boundary_c, boundary_r]
+  cases n with
+  | zero => simp [upIds, downIds]
+  | succ n => rw [downIds_succ, upIds_succ]; rfl
+
+/-- on a well-formed complex no lookup of the Python loops fails, for every order and orientation -/
+theorem boundary_defined (h : WF s) (k : Nat) (o : PyId → Nat) : boundaryDefined s k o = true := by
+  unfold boundaryDefined
+  split
+  · rfl
+  · rename_i hne
+    cases k with
+    | zero => exact absurd (Or.inl (by rw [downIds_zero h]; rfl)) hne
+    | succ n =>
+      rw [if_neg (by omega)]
+      rw [List.all_eq_true]
+      intro p hp
+      obtain ⟨hps, hpo⟩ := mem_ofOrder.mp hp
+      have hl := length_of_order hpo
+      rw [List.all_eq_true]
+      intro w hw
+      cases n with
+      | zero =>
+        have hl2 : (ss p).length = 2 := by rw [length_ss]; exact hl
+        obtain ⟨a, b, hab⟩ := List.length_eq_two.mp hl2
+        have ha : a ∈ s.nodes := h.memNodes p hps a (mem_ss.mp (by rw [hab]; simp))
+        have hb : b ∈ s.nodes := h.memNodes p hps b (mem_ss.mp (by rw [hab]; simp))
+        obtain ⟨ia, _, _, hxa⟩ := idxOf_nodes h ha
+        obtain ⟨ib, _, _, hxb⟩ := idxOf_nodes h hb
+        have hrows : downIds s 1 = s.nodes.map PyId.atom := by simp [downIds]
+        unfold writes writesOne at hw
+        rw [if_pos rfl, hrows] at hw
+        change w ∈ [ ((ss p)[1]?).bind _, ((ss p)[0]?).bind _ ] at hw
+        rw [hab] at hw
+        simp [hxa, hxb] at hw
+        rcases hw with rfl | rfl <;> rfl
+      | succ n =>
+        have hrows : downIds s (n + 2) = (s.ofOrder ((n + 1 : Nat) : Int)).map (·.1) := by
+          rw [downIds_succ]; simp [rowSimp, Function.comp_def]
+        unfold writes at hw
+        rw [if_neg (by omega), hrows] at hw
+        change w ∈ writesGen s (n + 2) o ((s.ofOrder ((n + 1 : Nat) : Int)).map (·.1)) p.1 (ss p) at hw
+        obtain ⟨c, hc, hgc⟩ := List.mem_iff_getElem.mp hw
+        have hc' : c < n + 3 := by rwa [gen_write_length n o _ _ (by simp [hl])] at hc
+        obtain ⟨q, _, m, hm, hmq, e, hget⟩ := gen_write h o n hps hl (c := c) (by omega)
+        rw [List.getElem?_eq_getElem hc, hgc] at hget
+        simp only [Option.some.injEq] at hget
+        rw [hget]; rfl
+
+/-! ### column support -/
+
+/-- value of an entry of `B_{n+1}`: `±1` exactly when the row simplex is the column simplex minus one vertex -/
+theorem entry_value (h : WF s) (o : PyId → Nat) (n : Nat) {i j : Nat}
+    (hi : i < (rowSimp s (n + 1)).length) (hj : j < (colSimp s (n + 1)).length) :
+    (∃ t < n + 2, ((colSimp s (n + 1))[j].2).eraseIdx t = (rowSimp s (n + 1))[i].2 ∧
+        (boundary s (n + 1) o).e i j = sgn (o (colSimp s (n + 1))[j].1 + t + rowOr o (n + 1) (rowSimp s (n + 1))[i].1)) ∨
+    ((∀ t < n + 2, ((colSimp s (n + 1))[j].2).eraseIdx t ≠ (rowSimp s (n + 1))[i].2) ∧
+        (boundary s (n + 1) o).e i j = 0) := by
+  obtain ⟨hnd, _, hlen, _⟩ := colSimp_props h (n + 1) hj
+  rw [entry_eq h o n hi hj]
+  by_cases hex : ∃ t < n + 2, ((colSimp s (n + 1))[j].2).eraseIdx t = (rowSimp s (n + 1))[i].2
+  · left
+    obtain ⟨t, ht, het⟩ := hex
+    refine ⟨t, ht, het, ?_⟩
+    rw [Finset.sum_eq_single t]
+    · rw [if_pos het]
+    · intro b hb hne
+      rw [if_neg]
+      intro hb'
+      exact hne (eraseIdx_inj hnd (by rw [hlen]; exact mem_range.mp hb) (by omega) (hb'.trans het.symm))
+    · intro hnot; exact absurd (mem_range.mpr ht) hnot
+  · right
+    have hall : ∀ t < n + 2, ((colSimp s (n + 1))[j].2).eraseIdx t ≠ (rowSimp s (n + 1))[i].2 :=
+      fun t ht e => hex ⟨t, ht, e⟩
+    refine ⟨hall, Finset.sum_eq_zero ?_⟩
+    intro t ht
+    rw [if_neg (hall t (mem_range.mp ht))]
+
+/-- for duplicate-free sorted lists of lengths n+1 and n+2: "ρ is σ with one position erased" says exactly
+    that every vertex of ρ is a vertex of σ -/
+theorem face_iff_subset {ρ σ : List Atom} {n : Nat} (hρ : ρ.Nodup) (sρ : Sorted ρ) (lρ : ρ.length = n + 1)
+    (hσ : σ.Nodup) (sσ : Sorted σ) (lσ : σ.length = n + 2) :
+    (∃ t < n + 2, σ.eraseIdx t = ρ) ↔ ∀ a ∈ ρ, a ∈ σ := by
+  constructor
+  · rintro ⟨t, _, rfl⟩ a ha
+    exact (List.eraseIdx_sublist σ t).subset ha
+  · intro hsub
+    -- some vertex of σ is not in ρ
+    have hx : ∃ x ∈ σ, x ∉ ρ := by
+      by_contra hno
+      have hsub2 : σ ⊆ ρ := fun x hx => by
+        by_contra hxρ; exact hno ⟨x, hx, hxρ⟩
+      have := List.Subperm.length_le (List.subperm_of_subset hσ hsub2)
+      omega
+    obtain ⟨x, hxσ, hxρ⟩ := hx
+    obtain ⟨t, ht, rfl⟩ := List.mem_iff_getElem.mp hxσ
+    refine ⟨t, by omega, ?_⟩
+    -- ρ ⊆ σ.eraseIdx t, same length, hence equal as sets
+    have hsub3 : ρ ⊆ σ.eraseIdx t := fun a ha => by
+      rw [mem_eraseIdx_nodup hσ ht]
+      exact ⟨hsub a ha, fun e => hxρ (e ▸ ha)⟩
+    have hlen : (σ.eraseIdx t).length = ρ.length := by rw [List.length_eraseIdx, if_pos ht]; omega
+    have hperm : ρ.Perm (σ.eraseIdx t) :=
+      (List.subperm_of_subset hρ hsub3).perm_of_length_le (by omega)
+    exact (sorted_unique hρ (nodup_eraseIdx hσ t) (fun a => hperm.mem_iff) sρ (sorted_eraseIdx sσ t)).symm
+
+/-- **column support.**  In column σ of `B_{n+1}` every entry is 0 or ±1; the entry in row ρ is non-zero exactly
+    when ρ is a face of σ (all its vertices are vertices of σ); there are exactly n+2 non-zero entries -/
+theorem column_support (h : WF s) (o : PyId → Nat) (n : Nat) {j : Nat} (hj : j < (colSimp s (n + 1)).length) :
+    (∀ i, i < (rowSimp s (n + 1)).length →
+        (boundary s (n + 1) o).e i j = 0 ∨ (boundary s (n + 1) o).e i j = 1 ∨ (boundary s (n + 1) o).e i j = -1) ∧
+    (∀ i (hi : i < (rowSimp s (n + 1)).length),
+        (boundary s (n + 1) o).e i j ≠ 0 ↔ ∀ a ∈ (rowSimp s (n + 1))[i].2, a ∈ (colSimp s (n + 1))[j].2) ∧
+    ((range (rowSimp s (n + 1)).length).filter (fun i => (boundary s (n + 1) o).e i j ≠ 0)).card = n + 2 := by
+  obtain ⟨hnd, hso, hlen, _⟩ := colSimp_props h (n + 1) hj
+  have hnz : ∀ i (hi : i < (rowSimp s (n + 1)).length), (boundary s (n + 1) o).e i j ≠ 0 ↔
+      ∃ t < n + 2, ((colSimp s (n + 1))[j].2).eraseIdx t = (rowSimp s (n + 1))[i].2 := by
+    intro i hi
+    rcases entry_value h o n hi hj with ⟨t, ht, het, hv⟩ | ⟨hall, hv⟩
+    · rw [hv]; exact ⟨fun _ => ⟨t, ht, het⟩, fun _ => sgn_ne_zero _⟩
+    · rw [hv]; exact ⟨fun hne => absurd rfl hne, fun ⟨t, ht, het⟩ => absurd het (hall t ht)⟩
+  refine ⟨?_, ?_, ?_⟩
+  · intro i hi
+    rcases entry_value h o n hi hj with ⟨t, _, _, hv⟩ | ⟨_, hv⟩
+    · rw [hv]; right; exact sgn_cases _
+    · left; exact hv
+  · intro i hi
+    obtain ⟨hρ, sρ, lρ⟩ := rowSimp_props h n hi
+    rw [hnz i hi]
+    exact face_iff_subset hρ sρ lρ hnd hso hlen
+  · -- count the non-zero rows by summing over the n+2 faces, each of which labels exactly one row
+    rw [Finset.card_filter]
+    have hrow : ∀ i ∈ range (rowSimp s (n + 1)).length,
+        (if (boundary s (n + 1) o).e i j ≠ 0 then 1 else 0) =
+        ∑ t ∈ range (n + 2), if (colL s (n + 1) j).eraseIdx t = rowL s (n + 1) i then (1 : Nat) else 0 := by
+      intro i hi
+      have hi' := mem_range.mp hi
+      rw [colL_eq hj, rowL_eq hi']
+      by_cases hex : ∃ t < n + 2, ((colSimp s (n + 1))[j].2).eraseIdx t = (rowSimp s (n + 1))[i].2
+      · rw [if_pos ((hnz i hi').mpr hex)]
+        obtain ⟨t, ht, het⟩ := hex
+        rw [Finset.sum_eq_single t]
+        · rw [if_pos het]
+        · intro b hb hne
+          rw [if_neg]
+          intro hb'
+          exact hne (eraseIdx_inj hnd (by rw [hlen]; exact mem_range.mp hb) (by omega) (hb'.trans het.symm))
+        · intro hnot; exact absurd (mem_range.mpr ht) hnot
+      · rw [if_neg (fun hne => hex ((hnz i hi').mp hne))]
+        symm
+        apply Finset.sum_eq_zero
+        intro t ht
+        rw [if_neg (fun e => hex ⟨t, mem_range.mp ht, e⟩)]
+    rw [Finset.sum_congr rfl hrow, Finset.sum_comm]
+    have hone : ∀ t ∈ range (n + 2), (∑ m ∈ range (rowSimp s (n + 1)).length,
+        if (colL s (n + 1) j).eraseIdx t = rowL s (n + 1) m then (1 : Nat) else 0) = 1 := by
+      intro t ht
+      have := face_row_count h n hj (mem_range.mp ht)
+      have hcast : ((∑ m ∈ range (rowSimp s (n + 1)).length,
+          if (colL s (n + 1) j).eraseIdx t = rowL s (n + 1) m then (1 : Nat) else 0 : Nat) : Int) = 1 := by
+        rw [← this]; push_cast; rfl
+      exact_mod_cast hcast
+    rw [Finset.sum_congr rfl hone]; simp
+
+/-! ### ∂∂ = 0 -/
+
+/-- **the product of consecutive boundary matrices is the zero matrix**, for every well-formed complex, every
+    order and every orientation assignment -/
+theorem dd_zero (h : WF s) (o : PyId → Nat) (n : Nat) {i j : Nat}
+    (hi : i < ((boundary s n o).mul (boundary s (n + 1) o)).r) (hj : j < ((boundary s n o).mul (boundary s (n + 1) o)).c) :
+    ((boundary s n o).mul (boundary s (n + 1) o)).e i j = 0 := by
+  cases n with
+  | zero =>
+    have := (boundary_zero_no_rows h o).1
+    simp only [Mat.mul] at hi
+    omega
+  | succ n =>
+    have hi' : i < (rowSimp s (n + 1)).length := by
+      simpa [Mat.mul, boundary_rows] using hi
+    have hj' : j < (colSimp s (n + 2)).length := by
+      have := hj; simp only [Mat.mul] at this; rwa [boundary_cols (s := s) (n + 1) o] at this
+    simp only [Mat.mul]
+    rw [list_sum_range, boundary_cols]
+    have hM : (colSimp s (n + 1)).length = (rowSimp s (n + 2)).length := rfl
+    have hterm : ∀ m ∈ range (colSimp s (n + 1)).length,
+        (boundary s (n + 1) o).e i m * (boundary s (n + 1 + 1) o).e m j =
+        (∑ t' ∈ range (n + 2), if (colL s (n + 1) m).eraseIdx t' = rowL s (n + 1) i
+            then sgn (o (colI s (n + 1) m) + t' + rowOr o (n + 1) (rowI s (n + 1) i)) else 0) *
+        (∑ t ∈ range (n + 3), if (colL s (n + 2) j).eraseIdx t = colL s (n + 1) m
+            then sgn (o (colI s (n + 2) j) + t + o (colI s (n + 1) m)) else 0) := by
+      intro m hm
+      have hm' := mem_range.mp hm
+      rw [entry_eq' h o n hi' hm', entry_eq' h o (n + 1) (i := m) (j := j) (by rw [← hM]; exact hm') hj']
+      simp only [rowOr, if_neg (show ¬ (n + 1 + 1 = 1) by omega), rowL_succ, rowI_succ]
+    rw [Finset.sum_congr rfl hterm]
+    exact dd_sum (colSimp s (n + 1)).length n (fun m => colL s (n + 1) m) (colL s (n + 2) j) (rowL s (n + 1) i)
+      (fun m => o (colI s (n + 1) m)) (rowOr o (n + 1) (rowI s (n + 1) i)) (o (colI s (n + 2) j))
+      (fun t ht => face_row_count h (n + 1) hj' ht)
+
+/-- the same statement about the list-of-rows form the driver prints -/
+theorem dd_zero_lists (h : WF s) (o : PyId → Nat) (n : Nat) :
+    ((boundary s n o).mul (boundary s (n + 1) o)).toLists =
+      List.replicate (boundary s n o).r (List.replicate (boundary s (n + 1) o).c 0) := by
+  unfold Mat.toLists
+  apply List.ext_getElem
+  · simp [Mat.mul]
+  · intro i h1 h2
+    simp only [List.length_map, List.length_range] at h1
+    simp only [List.getElem_map, List.getElem_range, List.getElem_replicate]
+    apply List.ext_getElem
+    · simp [Mat.mul]
+    · intro j h3 h4
+      simp only [List.length_map, List.length_range] at h3
+      simp only [List.getElem_map, List.getElem_range, List.getElem_replicate]
+      exact dd_zero h o n h1 h3
+
 end Xgi.C13
